@@ -260,6 +260,7 @@ func longestPrefix(s1, s2 string) int {
 	endIndex := -10
 	state := endByte
 	for i := 0; i < l; i++ {
+		prev := state // s1[:i] == s2[:i]，两者在 i 之前的状态是相同的。
 		switch s1[i] {
 		case startByte:
 			startIndex = i
@@ -270,7 +271,8 @@ func longestPrefix(s1, s2 string) int {
 		}
 
 		if s1[i] != s2[i] {
-			if state != endByte || // 不从命名参数中间分隔
+			if prev != endByte || // s2 还处于命名参数之中，比如 {id} 与 {idx}
+				state != endByte || // 不从命名参数中间分隔
 				endIndex+1 == i { // 命名参数之后必须要有一个或以上的普通字符
 				return startIndex
 			}
